@@ -18,7 +18,8 @@ def main():
     dst = os.path.join(VERIF, "seeded", "%s-%s%s" % (prop, rnd + "-" if rnd else "", k))
     if os.environ.get("SEED_PHASE") == "check":
         src = dst
-    wt = "/tmp/seedverify-%s-%s" % (prop, k)
+    # a fixed path per slot: the Go build cache is keyed by absolute paths, a new path per change costs ~1.3 GB of cache each
+    wt = "/tmp/seedverify-slot%s" % os.environ.get("SEED_SLOT", "0")
     meta = {"property": prop, "id": "%s-%s%s" % (prop, os.environ.get("SEED_ROUND", "") + "-" if os.environ.get("SEED_ROUND") else "", k), "ran": []}
     phase = os.environ.get("SEED_PHASE", "all")   # confirm (scratch worktree only, parallelisable) | check (on /repo, sequential) | all
     patch = os.path.join(src, "patch.diff")
